@@ -200,6 +200,57 @@ func main() {
 			}
 		})
 	}
+	// (1c) regular-expression metacharacters are ordinary characters of a glob; every list of 1-2
+	// such patterns is compiled twice in this process, before and after every other list (a
+	// compilation must not depend on what was compiled earlier)
+	{
+		mTok := []string{"a", "b", "|", "(", ")", "^", "$", "{", "}", "*"}
+		mPath := []string{"a", "b", "|", "(", ")", "^", "$"}
+		mpats := allSeqs(mTok, 3, 1)
+		mpaths := allSeqs(mPath, 3, 1)
+		var lists [][]string
+		for _, p := range mpats {
+			lists = append(lists, []string{p})
+		}
+		small := allSeqs(mTok[:5], 2, 1)
+		for _, p := range small {
+			for _, q := range small {
+				lists = append(lists, []string{p, q})
+			}
+		}
+		for round := 0; round < 2; round++ {
+			order := lists
+			if round == 1 {
+				order = make([][]string, len(lists))
+				for i, l := range lists {
+					order[len(lists)-1-i] = l
+				}
+			}
+			for _, l := range order {
+				re, err := util.CompileGlobs(l)
+				if err != nil {
+					r.Violation("C17:valid-pattern-rejected", fmt.Sprintf("CompileGlobs(%q) = %v", l, err), replay{Patterns: l, Impl: err.Error(), Ref: "valid"})
+					continue
+				}
+				var ts [][]tok
+				for _, p := range l {
+					t, _ := parseRef(p)
+					ts = append(ts, t)
+				}
+				for _, sp := range mpaths {
+					want := false
+					for _, t := range ts {
+						want = want || matchRef(t, sp)
+					}
+					evals.Add(1)
+					if got := re.MatchString(sp); got != want {
+						r.Violation("C17:metacharacter-mismatch", fmt.Sprintf("patterns %q path %q: impl=%v reference=%v (compiled in one process with every other list, round %d)", l, sp, got, want, round), replay{l, sp, got, want})
+					}
+				}
+			}
+		}
+		r.Add("metacharacter_lists_compiled_twice", int64(len(lists)))
+	}
 	// (2) lists of 0..3 patterns from a pool
 	pool := []string{"a", "b", "*", "**", "?", "a*", "*b", "a/b", "*/a", "**/b", "a/**", "?/a", "a.b", "*.a", `\*`, `a\?`,
 		"ab", "ba", "/", "a/", "/b", "*/", "/*", "**/", "a?", "?b", "??", "a/*", "*/*", "**a", "b**", "a+", ".", "..", "*.*",
@@ -296,7 +347,7 @@ func main() {
 	r.Extra["list_paths"] = len(lpaths)
 	r.Extra["mismatching_evaluations"] = mism.Load()
 	r.Extra["consumer_calls"] = r.Get("consumer_calls")
-	r.Assumptions = []string{"consumers: glob() and os.glob() are called with every include list of 1-2 patterns x exclude list of 0-1 (thorough 0-2) patterns from a 20-pattern pool on a generated tree, and dawn.toml ignore lists of 1-2 patterns decide which packages load; each selection is compared with the reference matcher over the full tree", "unescaped [ and ] and escapes of ordinary characters are outside the stated glob semantics and only required not to panic", "paths are non-empty strings over " + strings.Join(pathAl, " ")}
+	r.Assumptions = []string{"consumers: glob() and os.glob() are called with every include list of 1-2 patterns x exclude list of 0-1 (thorough 0-2) patterns from a 23-pattern pool on a generated tree, and dawn.toml ignore lists of 1-2 patterns decide which packages load; each selection is compared with the reference matcher over the full tree", "unescaped [ and ] and escapes of ordinary characters are outside the stated glob semantics and only required not to panic", "paths are non-empty strings over " + strings.Join(pathAl, " ")}
 	r.Finish(vlib.Coverage{
 		Evaluations:        evals.Load() + listEvals.Load() + r.Get("consumer_calls"),
 		DistinctNontrivial: nontrivial.Load() + listNontrivial.Load(),
